@@ -128,7 +128,25 @@ def run(ctx, scratch):
                 E = rng.choice(list(gen.all_undirected(n))) if n < 5 else None
             else:
                 E = None
-            if E is None:
+            if k >= 130:
+                # twin structures: two copies of a spider (a hub with legs of different lengths) joined at their hubs, optionally
+                # renumbered.  Twin nodes have the same multiset of neighbour colours listed in different index orders, and the
+                # hubs' hashes are sums of several unequal terms: a comparison of float hashes that is too strict, or depends on
+                # the summation order, separates nodes that colour refinement cannot (seed C02_5)
+                legs = sorted(rng.sample(range(1, 6), rng.randint(3, 4)))
+                one, nxt = [], 1
+                for L in legs:
+                    prev = 0
+                    for _s in range(L):
+                        one.append((prev, nxt))
+                        prev, nxt = nxt, nxt + 1
+                m1 = nxt
+                n = 2 * m1
+                E = one + [(a + m1, b + m1) for (a, b) in one] + [(0, m1)]
+                if k % 2:
+                    q = gen.random_perm(rng, n)
+                    E = [(min(q[a], q[b]), max(q[a], q[b])) for (a, b) in E]
+            elif E is None:
                 n, E2, fam = gen.random_graph(rng, 6 if k < 100 else nmax, directed=False, allow_loops=False)
                 E = [(i, j) for (i, j) in E2 if i < j]
             if not E:
